@@ -288,7 +288,9 @@ func (self *Compiler) compileExpr(node ast.AnalyzedExpression) {
 
 		fields := make(map[string]*value.Value)
 		for _, field := range node.Fields {
-			fields[field.Key.Ident()] = value.ZeroValue(field.Expression.Type())
+			// Only a placeholder: every field is assigned below.
+			// (A zero value does not exist for every type, e.g. for functions or diverging blocks)
+			fields[field.Key.Ident()] = value.NewValueNull()
 		}
 
 		object := *value.NewValueObject(fields)
